@@ -271,7 +271,7 @@ def run(ctx):
     # separator byte does not: `.com._tcp._res1` is a byte prefix of `.com._tcp._res10`): some byte emitted per label
     # (once / push / insert, in get_key or a closure of it) must be computed from len() of the label's bytes
     report.count()
-    gfam = [gk] + [x for x in prog.bodies.values() if x.kind == "Closure" and x.root == gk.id]
+    gfam = [gk] + mu.closures_of(prog, gk)
     delim = False
     n_emit = 0
     for gc in gfam:
